@@ -286,12 +286,12 @@ End InstFacts.
 (* the semantic theorem for the checked public build *)
 Theorem build_sem p r m inputs outputs :
   build_checked p r = inl m -> all_vars (r_inputs r) = Some inputs -> all_vars (r_outputs r) = Some outputs ->
-  let p' := with_main p (Some (main_args inputs)) outputs in
+  let p' := final_prog p r inputs outputs in
   forall (val : Type) (dv : val) (opsem : nat -> list (option val) -> list (clos val) -> list val),
   (forall n ivs c1 c2, Forall2 (fun a b => forall av, a av = b av) c1 c2 -> opsem n ivs c1 = opsem n ivs c2) ->
   forall av,
   run_plan p' 0 val dv opsem (plan_of_graph p' 0 (mmain m)) av =
-  map (meaning p' 0 val dv opsem (bindv val dv (main_args inputs) av)) (map snd outputs).
+  map (meaning p' 0 val dv opsem (bindv val dv (request_args p r inputs outputs) av)) (map snd outputs).
 Proof.
   intros H Hi Ho p' val dv opsem Hext av. apply build_checked_inv in H. destruct H as [_ Hv].
   pose proof (plan_checked p r m inputs outputs Hi Ho Hv) as Hc. fold p' in Hc.
@@ -301,11 +301,11 @@ Proof.
   unfold gresP. rewrite map_map. change (gres (getg p' 0)) with outputs.
   apply nth_ext with (d := dv) (d' := dv); [now rewrite !map_length, seq_length|].
   intros i Hi'. rewrite map_length, seq_length in Hi'.
-  rewrite (nth_indep _ dv (meaning p' 0 val dv opsem (bindv val dv (main_args inputs) av) (V (NIntro 0) 0))) by (now rewrite map_length, seq_length).
-  rewrite (map_nth (fun x => meaning p' 0 val dv opsem (bindv val dv (main_args inputs) av) (V (NIntro 0) x))), seq_nth by assumption. cbn [Nat.add].
+  rewrite (nth_indep _ dv (meaning p' 0 val dv opsem (bindv val dv (request_args p r inputs outputs) av) (V (NIntro 0) 0))) by (now rewrite map_length, seq_length).
+  rewrite (map_nth (fun x => meaning p' 0 val dv opsem (bindv val dv (request_args p r inputs outputs) av) (V (NIntro 0) x))), seq_nth by assumption. cbn [Nat.add].
   destruct (nth_error outputs i) as [kv|] eqn:Ek; [|apply nth_error_None in Ek; lia].
   rewrite (meaning_intro p' 0 Ha val dv opsem Hext _ 0 i (snd kv) Hin0) by (unfold greqP; change (gres (getg p' 0)) with outputs; now rewrite nth_error_map, Ek).
-  symmetry. rewrite (nth_indep _ dv (meaning p' 0 val dv opsem (bindv val dv (main_args inputs) av) (snd kv))) by (now rewrite !map_length).
-  rewrite map_map. rewrite (map_nth (fun x : String.string * var => meaning p' 0 val dv opsem (bindv val dv (main_args inputs) av) (snd x))).
+  symmetry. rewrite (nth_indep _ dv (meaning p' 0 val dv opsem (bindv val dv (request_args p r inputs outputs) av) (snd kv))) by (now rewrite !map_length).
+  rewrite map_map. rewrite (map_nth (fun x : String.string * var => meaning p' 0 val dv opsem (bindv val dv (request_args p r inputs outputs) av) (snd x))).
   now rewrite (nth_error_nth _ _ _ Ek).
 Qed.
